@@ -2,7 +2,7 @@
    Only statements, each closed by `exact`, each followed by Print Assumptions. *)
 From Coq Require Import List NArith ZArith Bool.
 From Vy Require Import Model.Base Model.Lexer Model.Parser Model.PyTree Model.Books
-  Gen.BookFacts Proofs.ParserFacts Proofs.C12Proofs.
+  Gen.BookFacts Proofs.ParserFacts Proofs.C12Proofs Proofs.ParseInvariants.
 Import ListNotations.
 
 (* outside the structure templates nothing changes the depth of the four lists: no element
@@ -45,6 +45,22 @@ Print Assumptions C12_runs.
 Theorem C12_defs_balanced : forall s il lam, exit_ok il lam s = true -> frag_ok il lam (effects s).
 Proof. exact effects_ok. Qed.
 Print Assumptions C12_defs_balanced.
+
+(* every program TEXT: the parent annotations the parser writes are consistent with where
+   the early exits stand, so the side condition holds for whatever `parse` returns, except for
+   an early exit written in a while condition (`wconds`, a SyntaxError recorded under C02) *)
+Theorem C12_programs : forall src l k,
+  parse_source src = Ok l -> forallb wconds l = true ->
+  balanced (effects_program (firstn k l)) = true.
+Proof.
+  exact (fun src l k H W => every_prefix_balanced l k (parsed_exit_ok (Lexer.tokenise src) l H W)).
+Qed.
+Print Assumptions C12_programs.
+
+Theorem C12_parser_annotations_consistent : forall ts l,
+  parse_tokens ts = Ok l -> forallb wconds l = true -> forallb (exit_ok false false) l = true.
+Proof. exact parsed_exit_ok. Qed.
+Print Assumptions C12_parser_annotations_consistent.
 
 (* premises are satisfiable:  3(n2=[X|x])  5λ2<[X]7;†  are fine;  {X|1} is excluded and
    indeed unbalanced *)
